@@ -60,18 +60,26 @@ def cxn_apply(c, a):
     setattr(c, {"bx": "begin_x", "by": "begin_y", "ex": "end_x", "ey": "end_y"}[a["op"]], a["v"])
 
 
-def cxn_group(gid, h, scale, values):
+def _mon(slide, on):
+    if not on:
+        return []
+    from mbt.monitor import xsd as X
+    return X.errors(slide._element)
+
+
+def cxn_group(gid, h, scale, values, xsd=False):
+    """xsd=True (C03 host): "x" = the XSD monitor's verdict on the slide part after every real call."""
     from pptx.enum.shapes import MSO_CONNECTOR
     b = bench()
     sc = lambda a: {k: (v * scale if k in ("bx", "by", "ex", "ey", "v") else v) for k, v in a.items()}  # noqa: E731
     a0 = sc(h[0])
     kind = [MSO_CONNECTOR.STRAIGHT, MSO_CONNECTOR.ELBOW, MSO_CONNECTOR.CURVE][len(h) % 3]
     c = b.slide.shapes.add_connector(kind, a0["bx"], a0["by"], a0["ex"], a0["ey"])
-    path = [{"a": a0, "t": cxn_state(c)}]
+    path = [{"a": a0, "t": cxn_state(c), "x": _mon(b.slide, xsd)}]
     for a in h[1:]:
         a = sc(a)
         cxn_apply(c, a)
-        path.append({"a": a, "t": cxn_state(c)})
+        path.append({"a": a, "t": cxn_state(c), "x": _mon(b.slide, xsd)})
     steps = []
     for op in ("bx", "by", "ex", "ey"):
         for v in values:
@@ -80,7 +88,7 @@ def cxn_group(gid, h, scale, values):
             c2 = b.slide.shapes[-1]
             a = {"op": op, "v": v * scale, "bx": 0, "by": 0, "ex": 0, "ey": 0}
             cxn_apply(c2, a)
-            steps.append({"a": a, "t": cxn_state(c2)})
+            steps.append({"a": a, "t": cxn_state(c2), "x": _mon(b.slide, xsd)})
             el.getparent().remove(el)
     c._element.getparent().remove(c._element)
     return {"id": gid, "path": path, "steps": steps}
@@ -90,7 +98,7 @@ def cxn_group(gid, h, scale, values):
 LEAF_KINDS = ("autoshape", "textbox", "picture", "connector", "table", "freeform", "chart")
 
 
-def grp_group(gid, h, scale, kind_salt=0):
+def grp_group(gid, h, scale, kind_salt=0, xsd=False):
     import pptx
     from pptx.enum.shapes import MSO_CONNECTOR, MSO_SHAPE
     prs = bench().prs
@@ -162,7 +170,7 @@ def grp_group(gid, h, scale, kind_salt=0):
             g = slide.shapes.add_group_shape(members)
             nodes.append((g._element, True))
         a["ids"] = sorted(a.get("ids", []))
-        path.append({"a": a, "t": project()})
+        path.append({"a": a, "t": project(), "x": _mon(slide, xsd)})
     # drop the slide again (keeps the bench small)
     rid = prs.slides._sldIdLst[-1].rId
     prs.part.drop_rel(rid)
@@ -171,7 +179,7 @@ def grp_group(gid, h, scale, kind_salt=0):
 
 
 # ---------------------------------------------------------------- freeform
-def ff_case(gid, c, salt=0):
+def ff_case(gid, c, salt=0, xsd=False):
     b = bench()
     deltas = (0.0, 0.25, -0.4, 0.49)
     d = lambda k: deltas[(salt + k) % len(deltas)]  # noqa: E731
@@ -208,5 +216,6 @@ def ff_case(gid, c, salt=0):
     x, y, cx, cy, _ = _box(el)
     if (x, y, cx, cy) != (t["x"], t["y"], t["cx"], t["cy"]):
         t["x"] = -999999   # readers disagree with the serialised frame
+    mon = _mon(b.slide, xsd)
     el.getparent().remove(el)
-    return {"id": gid, "c": c, "t": t}
+    return {"id": gid, "c": c, "t": t, "xsd": mon}
